@@ -2853,18 +2853,18 @@ func (s *Storage) Decode(d *Decoder) error {
 		// INFO: we want to read the vectors from jamtestnet, so we follow the same
 		// pattern as in the jamtestnet. They put the length of the key before the
 		// key
-		length, err := d.DecodeLength()
+		keyLength, err := d.DecodeLength()
 		if err != nil {
 			return err
 		}
 
-		if length == 0 {
-			return nil
-		}
-
+		// an empty key is a key like any other: the entry's value still follows
 		var key ByteSequence
 		if err = key.Decode(d); err != nil {
 			return err
+		}
+		if uint64(len(key)) != keyLength {
+			return errors.New("Storage key length prefixes disagree")
 		}
 		str := string(key)
 
